@@ -455,6 +455,20 @@ static int rec_sink(REPROC_STREAM stream, const uint8_t *buffer, size_t size, vo
   return ret;
 }
 
+/* string sink of the library, wrapped so that the call is logged and a chosen growth step fails to allocate */
+extern int sk_fail_next_realloc;
+struct strsink { struct recsink rec; reproc_sink lib; int fail_at; };
+static struct strsink strsinks[3];
+static int str_sink(REPROC_STREAM stream, const uint8_t *buffer, size_t size, void *ctx)
+{
+  struct strsink *s = ctx;
+  rec_sink(stream, buffer, size, &s->rec);               /* log (never fails: rec.fail_at = 0) */
+  if (s->fail_at > 0 && s->rec.calls == s->fail_at) sk_fail_next_realloc = 1;
+  int r = s->lib.function(stream, buffer, size, s->lib.context);
+  sk_fail_next_realloc = 0;
+  return r;
+}
+
 static reproc_sink mk_sink(jv *spec, struct recsink *rs, int id, char **strp)
 {
   /* spec: ["rec", fail_at, fail_val] | ["str", initial_len] | ["discard"] | ["null"] | ["nofn"] */
@@ -464,10 +478,15 @@ static reproc_sink mk_sink(jv *spec, struct recsink *rs, int id, char **strp)
     if (spec && spec->n > 2) { rs->fail_at = (int) spec->a[1]->i; rs->fail_val = (int) spec->a[2]->i; }
     return (reproc_sink){ rec_sink, rs };
   }
-  if (!strcmp(k, "str")) {
+  if (!strcmp(k, "str")) { /* ["str", initial length (-1: NULL), fail at call k (0: never)] */
     long n = spec->n > 1 ? spec->a[1]->i : -1;
     if (n >= 0) { *strp = malloc((size_t) n + 1); memset(*strp, 'I', (size_t) n); (*strp)[n] = 0; } else *strp = NULL;
-    return reproc_sink_string(strp);
+    struct strsink *s = &strsinks[id];
+    s->rec.id = id; s->rec.calls = 0; s->rec.fail_at = 0; s->rec.fail_val = 0;
+    s->lib = reproc_sink_string(strp);
+    s->fail_at = spec->n > 2 ? (int) spec->a[2]->i : 0;
+    rs->fail_at = s->fail_at; rs->calls = 0;   /* so that the summary knows which sink failed */
+    return (reproc_sink){ str_sink, s };
   }
   if (!strcmp(k, "discard")) return reproc_sink_discard();
   if (!strcmp(k, "null")) return REPROC_SINK_NULL;
@@ -482,15 +501,17 @@ static jv *str_obs(char *s, int h)
   size_t len = strlen(s), i = 0;
   while (i < len && s[i] == 'I') i++;
   j_push(a, j_mkint((long) len)); j_push(a, j_mkint((long) i));
-  long off[3] = { 0, 0, 0 };
+  long off[3] = { -1, -1, -1 };   /* the string may start in the middle of a stream: continuity from the first byte seen */
   int ok = 1;
   for (; i < len; i++) {
     int b = (unsigned char) s[i];
     int tag = b >= 1 && b <= 240 ? (b - 1) / 120 + 1 : 0;
-    if (!tag || (b - 1) % 120 != off[tag] % 120) ok = 0; else off[tag]++;
+    if (!tag) { ok = 0; continue; }
+    if (off[tag] < 0) off[tag] = (b - 1) % 120;
+    if ((b - 1) % 120 != off[tag] % 120) ok = 0; else off[tag]++;
   }
   (void) h;
-  j_push(a, j_mkint(ok)); j_push(a, j_mkint(off[1])); j_push(a, j_mkint(off[2]));
+  j_push(a, j_mkint(ok));
   return a;
 }
 
@@ -673,6 +694,8 @@ static long do_call(jv *c, jv **extra)
         }
         cnt[id][0]++;
       }
+      if (!strcmp(sp && sp->n > 0 ? sp->a[0]->a[0]->s : "rec", "str")) so.calls = strsinks[1].rec.calls;
+      if (!strcmp(sp && sp->n > 1 ? sp->a[1]->a[0]->s : "rec", "str")) se.calls = strsinks[2].rec.calls;
       int f1 = so.fail_at > 0 && so.calls >= so.fail_at, f2 = se.fail_at > 0 && se.calls >= se.fail_at;
       jv *ds = j_mkarr();
       for (int id = 1; id <= 2; id++) {
